@@ -18,6 +18,7 @@
    The text layer itself (emitter / parser) is a Section variable pair in proofs/ContinuationP.v
    with PyYAML's round-trip law as the single named hypothesis.                              *)
 From SFV Require Import Base.
+From SFV Require Export YamlScalar.
 Open Scope string_scope.
 
 (* arbitrary byte strings for the harness (UTF-8, control characters) *)
@@ -444,14 +445,15 @@ Definition restored_scalars := restored_gen field_after.
 (* -------- the YAML text layer: emitter and parser are parameters -------- *)
 Section YamlTextLayer.
   Variable text : Type.
-  (* the emitter, given the key-sorted tree of a state whose scalars all have a representer *)
-  Variable yaml_dump : tree -> text.
+  (* yaml.dump(.., Dumper=SnowfakeryDumper) on the key-sorted tree; None = RepresenterError *)
+  Variable yaml_dump : tree -> option text.
   (* yaml.safe_load *)
   Variable yaml_load : text -> option tree.
 
   (* save_continuation_yaml *)
   Definition write_file (g : globals) : result text :=
-    do t <- dump_check g; Ok (yaml_dump t).
+    do t <- dump_check g;
+    match yaml_dump t with Some txt => Ok txt | None => representer_error end.
 
   (* load_continuation_yaml *)
   Definition read_file (txt : text) : result globals :=
@@ -468,6 +470,277 @@ Section YamlTextLayer.
     end.
 
 End YamlTextLayer.
+
+(* -------- inter-table references while a (continued) run generates rows -------- *)
+(* OrderedSet.add: a reference that is already recorded keeps its place *)
+Definition dep_add (l : list dep) (d : dep) : list dep :=
+  if existsb (dep_eqb d) l then l else l ++ [d].
+
+(* register_intertable_reference for every reference-valued field of every row, in order *)
+Definition record_deps (l : list dep) (news : list dep) : list dep := fold_left dep_add news l.
+
+(* a continued run: start from the loaded state, record what the new rows refer to *)
+Definition continue_deps (g : globals) (news : list dep) : list dep := record_deps (g_deps g) news.
+
+(* generate_mapping_from_recipe.build_dependencies: reference_fields[(from, field)] = to, a later entry
+   overwrites an earlier one; this is the lookup table the CCI mapping of a run is written from *)
+Fixpoint lookup_target (deps : list dep) (from field : string) : option string :=
+  match deps with
+  | [] => None
+  | d :: r =>
+    match lookup_target r from field with
+    | Some t => Some t
+    | None => if String.eqb (d_from d) from && String.eqb (d_field d) field then Some (d_to d) else None
+    end
+  end.
+
+(* -------- the YAML text layer as a model: representer, serializer/emitter decisions, composer,
+            constructor.  Only the character level (quoting, escaping, indentation, anchors) and
+            the printers / parsers of float, date, datetime and Decimal stay parameters. -------- *)
+Definition decimal_tag : ytag := TgOther "!snowfakery_decimal".
+
+(* values the model keeps as opaque tokens *)
+Definition opaque_value (v : value) : bool :=
+  match v with VFloat _ | VDate _ | VDateTime _ _ | VDec _ => true | _ => false end.
+
+(* trees of scalar nodes (after the representer / after the composer) and of presented scalars *)
+Inductive ntree :=
+| NS (n : snode)
+| NL (l : list ntree)
+| NM (m : list (snode * ntree)).
+
+Inductive ptree :=
+| PS (p : pscalar)
+| PL (l : list ptree)
+| PM (m : list (pscalar * ptree)).
+
+Section YamlModel.
+  (* SafeRepresenter.represent_float / represent_date / represent_datetime on the value a token
+     stands for; str(Decimal) *)
+  Variable float_text : string -> string.
+  Variable date_text : Z -> string.
+  Variable datetime_text : Z -> option Z -> string.
+  (* SafeConstructor.construct_yaml_float (then .hex()), construct_yaml_timestamp, Decimal(text) *)
+  Variable float_read : string -> option string.
+  Variable timestamp_read : string -> option value.
+  Variable decimal_read : string -> option string.
+
+  (* SafeRepresenter + SnowfakeryDumper's Decimal representer; None = represent_undefined raises *)
+  Definition represent_value (v : value) : option snode :=
+    match v with
+    | VNull => Some (mkSN TgNull "null")
+    | VBool b => Some (mkSN TgBool (if b then "true" else "false"))
+    | VInt z => Some (mkSN TgInt (int_text z))
+    | VFloat h => Some (mkSN TgFloat (float_text h))
+    | VStr s => Some (mkSN TgStr s)
+    | VDate o => Some (mkSN TgTimestamp (date_text o))
+    | VDateTime w off => Some (mkSN TgTimestamp (datetime_text w off))
+    | VDec t => Some (mkSN decimal_tag t)
+    | VRow _ _ | VSlot _ _ | VLazy _ _ | VRef _ _ => None
+    end.
+
+  (* SafeConstructor.construct_object on a scalar node; None = ConstructorError (or a text outside
+     the modelled part of construct_yaml_int) *)
+  Definition construct_scalar (n : snode) : option value :=
+    let text := sn_text n in
+    match sn_tag n with
+    | TgStr => Some (VStr text)
+    | TgInt => option_map VInt (construct_int text)
+    | TgBool => option_map VBool (construct_bool text)
+    | TgNull => Some VNull
+    | TgFloat => option_map VFloat (float_read text)
+    | TgTimestamp => timestamp_read text
+    | TgOther name =>
+      if String.eqb name "!snowfakery_decimal" then option_map VDec (decimal_read text) else None
+    | TgMerge | TgValue | TgYaml => None
+    end.
+
+  Fixpoint represent_tree (t : tree) : option ntree :=
+    match t with
+    | TVal v => option_map NS (represent_value v)
+    | TList l =>
+      option_map NL
+        ((fix go (l : list tree) : option (list ntree) :=
+            match l with
+            | [] => Some []
+            | x :: r => match represent_tree x, go r with
+                        | Some a, Some b => Some (a :: b)
+                        | _, _ => None
+                        end
+            end) l)
+    | TMap m =>
+      option_map NM
+        ((fix go (m : list (string * tree)) : option (list (snode * ntree)) :=
+            match m with
+            | [] => Some []
+            | (k, x) :: r => match represent_tree x, go r with
+                             | Some a, Some b => Some ((mkSN TgStr k, a) :: b)
+                             | _, _ => None
+                             end
+            end) m)
+    end.
+
+  (* mapping keys of the persistent state are str; any other key type is outside the model *)
+  Definition key_of (n : snode) : option string :=
+    match construct_scalar n with Some (VStr k) => Some k | _ => None end.
+
+  Fixpoint construct_tree (n : ntree) : option tree :=
+    match n with
+    | NS s => option_map TVal (construct_scalar s)
+    | NL l =>
+      option_map TList
+        ((fix go (l : list ntree) : option (list tree) :=
+            match l with
+            | [] => Some []
+            | x :: r => match construct_tree x, go r with
+                        | Some a, Some b => Some (a :: b)
+                        | _, _ => None
+                        end
+            end) l)
+    | NM m =>
+      option_map TMap
+        ((fix go (m : list (snode * ntree)) : option (list (string * tree)) :=
+            match m with
+            | [] => Some []
+            | (k, x) :: r => match key_of k, construct_tree x, go r with
+                             | Some k', Some a, Some b => Some ((k', a) :: b)
+                             | _, _, _ => None
+                             end
+            end) m)
+    end.
+
+  (* the resolver, the default tag, the emitter's analysis of a text and its decision whether a key
+     is written as a simple key: the theorems hold for every choice *)
+  Variable resolve : string -> ytag.
+  Variable default_tag : ytag.
+  Variable analyze : string -> analysis.
+  Variable simple_key : string -> bool.
+
+  (* Serializer + Emitter decisions for every scalar of a block-style document (yaml.dump's
+     default_flow_style=False: scalars are never inside a flow collection) *)
+  Fixpoint present (n : ntree) : ptree :=
+    match n with
+    | NS s => PS (emit_scalar resolve default_tag analyze false false s)
+    | NL l => PL (map present l)
+    | NM m => PM (map (fun kv => match kv with
+                                 | (k, x) => (emit_scalar resolve default_tag analyze (simple_key (sn_text k)) false k,
+                                              present x)
+                                 end) m)
+    end.
+
+  (* Parser + Composer *)
+  Fixpoint compose (p : ptree) : ntree :=
+    match p with
+    | PS s => NS (compose_scalar resolve default_tag s)
+    | PL l => NL (map compose l)
+    | PM m => NM (map (fun kv => match kv with
+                                 | (k, x) => (compose_scalar resolve default_tag k, compose x)
+                                 end) m)
+    end.
+
+  (* the character level: Emitter's writers, Scanner, alias expansion of the Composer *)
+  Variable text : Type.
+  Variable emit_chars : ptree -> text.
+  Variable scan_chars : text -> option ptree.
+
+  (* yaml.dump(tree, Dumper=SnowfakeryDumper); None = RepresenterError *)
+  Definition yaml_dump_m (t : tree) : option text :=
+    option_map (fun n => emit_chars (present n)) (represent_tree t).
+
+  (* yaml.safe_load(text); None = a YAMLError *)
+  Definition yaml_load_m (txt : text) : option tree :=
+    match scan_chars txt with
+    | Some p => construct_tree (compose p)
+    | None => None
+    end.
+
+End YamlModel.
+
+(* every opaque token of a tree satisfies [ok] *)
+Fixpoint tree_values_ok (ok : value -> bool) (t : tree) : bool :=
+  match t with
+  | TVal v => ok v
+  | TList l => forallb (tree_values_ok ok) l
+  | TMap m => forallb (fun kv => match kv with (_, x) => tree_values_ok ok x end) m
+  end.
+
+(* every token of an opaque kind (float, date, datetime, Decimal) in the tree stands for a Python value *)
+Definition tokens_ok (token_ok : value -> bool) : tree -> bool :=
+  tree_values_ok (fun v => implb (opaque_value v) (token_ok v)).
+
+(* Python's / PyYAML's printers and parsers of float, date, datetime and Decimal invert each other
+   on such tokens (repr(float) / float(), isoformat / the timestamp regexp, str / Decimal()) *)
+Definition codec_law (float_text : string -> string) (date_text : Z -> string)
+           (datetime_text : Z -> option Z -> string) (float_read : string -> option string)
+           (timestamp_read : string -> option value) (decimal_read : string -> option string)
+           (token_ok : value -> bool) : Prop :=
+  forall v n, opaque_value v = true -> token_ok v = true ->
+              represent_value float_text date_text datetime_text v = Some n ->
+              construct_scalar float_read timestamp_read decimal_read n = Some v.
+
+(* the character level (quoting, escaping, indentation, anchors; scanner) reproduces what the emitter
+   decided: the structure, the text of every scalar, whether it was plain, and its explicit tag *)
+Definition syntax_law (resolve : string -> ytag) (default_tag : ytag) (analyze : string -> analysis)
+           (simple_key : string -> bool) (text : Type) (emit_chars : ptree -> text)
+           (scan_chars : text -> option ptree) : Prop :=
+  forall n, scan_chars (emit_chars (present resolve default_tag analyze simple_key n)) =
+            Some (present resolve default_tag analyze simple_key n).
+
+(* -------- comparing the model with the events of a written file -------- *)
+(* one scalar of the file as yaml.parse reports it (explicit tag, plain or quoted, text), plus what
+   the dumper's and the loader's implicit resolver say about the text *)
+Record oscalar := mkOS {
+  os_tag : option ytag; os_plain : bool; os_text : string; os_res_d : ytag; os_res_l : ytag }.
+
+Inductive otree :=
+| OS (s : oscalar)
+| OL (l : list otree)
+| OM (m : list (oscalar * otree)).
+
+(* the node of a value whose opaque token's text is read off the file *)
+Definition node_for (v : value) (txt : string) : option snode :=
+  represent_value (fun _ => txt) (fun _ => txt) (fun _ _ => txt) v.
+
+(* constructor for the kinds the model computes (str, int, bool, null) *)
+Definition construct_known : snode -> option value :=
+  construct_scalar (fun _ => None) (fun _ => None) (fun _ => None).
+
+Definition check_scalar (v : value) (o : oscalar) : bool :=
+  match node_for v (os_text o) with
+  | None => false
+  | Some n =>
+    String.eqb (sn_text n) (os_text o) &&
+    ytag_eqb (resolve_plain (os_text o)) (os_res_d o) &&
+    ytag_eqb (resolve_plain (os_text o)) (os_res_l o) &&
+    match emit_scalar_as resolve_plain default_scalar_tag (os_plain o) n with
+    | None => false                               (* written plain although implicit[0] is false *)
+    | Some p =>
+      option_eqb ytag_eqb (ps_tag p) (os_tag o) &&
+      ytag_eqb (composed_tag resolve_plain default_scalar_tag p) (sn_tag n) &&
+      (opaque_value v ||
+       option_eqb value_eqb (construct_known (compose_scalar resolve_plain default_scalar_tag p)) (Some v))
+    end
+  end.
+
+Fixpoint check_present (t : tree) (o : otree) : bool :=
+  match t, o with
+  | TVal v, OS s => check_scalar v s
+  | TList l, OL ol =>
+    (fix go (l : list tree) (ol : list otree) : bool :=
+       match l, ol with
+       | [], [] => true
+       | x :: r, y :: s => check_present x y && go r s
+       | _, _ => false
+       end) l ol
+  | TMap m, OM om =>
+    (fix go (m : list (string * tree)) (om : list (oscalar * otree)) : bool :=
+       match m, om with
+       | [], [] => true
+       | (k, x) :: r, (ok, y) :: s => check_scalar (VStr k) ok && check_present x y && go r s
+       | _, _ => false
+       end) m om
+  | _, _ => false
+  end.
 
 (* -------- equality tests for the correspondence check -------- *)
 Definition smap_eqb {A} (eqb : A -> A -> bool) (a b : smap A) : bool :=
@@ -519,7 +792,12 @@ Inductive case :=
   (* continued run: nicknames_and_tables after initialize_globals(loaded, templates), sorted *)
 | CResume (t : tree) (tpls : list (option string * string)) (expected : result (smap string))
   (* first run: nicknames_and_tables computed from the templates, sorted *)
-| CFresh (tpls : list (option string * string)) (expected : smap string).
+| CFresh (tpls : list (option string * string)) (expected : smap string)
+  (* continued run: references listed in the file it loaded, references of the rows it wrote (in
+     order), references listed in the file it wrote *)
+| CRecord (loaded : list dep) (news : list dep) (expected : list dep)
+  (* tree parsed from a written file and its scalars as the event stream of the file shows them *)
+| CPresent (t : tree) (o : otree).
 
 Definition is_unsupported {A} (r : result A) : bool :=
   match r with Err Unsupported => true | _ => false end.
@@ -542,6 +820,8 @@ Definition check_case (c : case) : bool :=
                (do g <- load t; Ok (sort_keys (g_nat (initialize_globals (Some g) tpls VNull)))) e
   | CFresh tpls e =>
     smap_eqb String.eqb (sort_keys (g_nat (initialize_globals None tpls VNull))) e
+  | CRecord l news e => list_eqb dep_eqb (record_deps l news) e
+  | CPresent t o => check_present t o
   end.
 
 (* one generated input yields several comparisons *)
